@@ -150,10 +150,36 @@ def _worker(job):
                 res['queries'] += 1; res['unsat'] += st == 'unsat'
                 res['details'].append({'q': 'the pivot chosen in column 0 maximises |a_i0| / max_j |a_ij| (path %s, chosen row %d)' % (path, p),
                                        'verdict': st, 'model': mdict(mdl_) if st == 'sat' else None})
+    except RuntimeError as e:
+        if 'load of uninitialised' in str(e):
+            res['queries'] += 1
+            res['details'].append({'q': 'every path writes its result (a path returned without writing the output matrix: %s)' % e, 'verdict': 'sat', 'model': {'unwritten': str(e)}})
+        else:
+            res['error'] = '%s: %s' % (type(e).__name__, e)
     except Exception as e:
         res['error'] = '%s: %s' % (type(e).__name__, e)
     res['time'] = round(time.time() - t0, 2)
     return res
+
+
+def unwritten_numeric_replay(ctx, kind):
+    """exactly singular input through the REAL compiled kernel with the output pre-filled by a sentinel: is the result left untouched?"""
+    import ctypes
+    so = os.path.join(ctx.dir, 'lu2.so')
+    r = subprocess.run(['gcc', '-w', '-O0', '-shared', '-fPIC', '-DHAVE_CONFIG_H', '-I' + core.REPO, '-I' + core.SRC] +
+                       [os.path.join(core.SRC, 'vnacommon_%s.c' % k) for k in ('lu', 'mldivide', 'mrdivide', 'minverse')] + ['-o', so, '-lm'], capture_output=True, text=True)
+    if r.returncode != 0: return False, 'native build failed'
+    lib = ctypes.CDLL(so)
+    class CD(ctypes.Structure): _fields_ = [('re', ctypes.c_double), ('im', ctypes.c_double)]
+    X = (ctypes.c_double * 8)(*([12345.0] * 8)); A = (ctypes.c_double * 8)(1, 0, 2, 0, 2, 0, 4, 0); B = (ctypes.c_double * 8)(1, 0, 0, 0, 0, 0, 1, 0)
+    if kind == 'minverse':
+        lib._vnacommon_minverse.restype = CD; lib._vnacommon_minverse(X, A, 2)
+    elif kind == 'mldivide':
+        lib._vnacommon_mldivide.restype = CD; lib._vnacommon_mldivide(X, A, B, 2, 2)
+    else:
+        lib._vnacommon_mrdivide.restype = CD; lib._vnacommon_mrdivide(X, B, A, 2, 2)
+    stale = all(X[i] == 12345.0 for i in range(8))
+    return stale, 'singular [[1,2],[2,4]]: output buffer %s' % ('left untouched (stale plausible numbers)' if stale else 'overwritten: %s' % [X[i] for i in range(8)])
 
 
 def pivot_numeric_replay(ctx):
@@ -206,7 +232,15 @@ def run(tier, only=None):
         known = core.load_known()
         violations = []; notes = []; known_hits = []
         pivot_bad = [(r, d) for r, d in bad if r['kind'] == 'pivot']
-        other_bad = [(r, d) for r, d in bad if r['kind'] != 'pivot']
+        unwritten = [(r, d) for r, d in bad if r['kind'] != 'pivot' and isinstance(d.get('model'), dict) and 'unwritten' in d['model']]
+        other_bad = [(r, d) for r, d in bad if r['kind'] != 'pivot' and (r, d) not in unwritten]
+        for r, d in unwritten[:1]:
+            stale, how = unwritten_numeric_replay(ctx, r['kind'])
+            rd = os.path.join(core.VERIF, 'evidence', 'replay', 'C19_unwritten_%s' % r['kind'])
+            os.makedirs(rd, exist_ok=True)
+            json.dump({'function': r['fn'], 'query': d['q'], 'numeric_replay': how}, open(os.path.join(rd, 'cex.json'), 'w'), indent=1)
+            if stale: violations.append((r, d, rd, how))
+            else: notes.append('a symbolic path leaves the output unwritten but the native singular case overwrites it: ' + how)
         if pivot_bad:
             worst, case = pivot_numeric_replay(ctx)
             if worst is not None and worst > 1e-6:
